@@ -8,6 +8,7 @@ each executed on the real Lexer / Template and compared with independent
 oracles (outcome class, span tiling, positions, reference segmenter, time).
 """
 
+import io
 import itertools
 import os
 import re
@@ -38,7 +39,7 @@ ASSUMPTIONS = [
     "CPython re, eval/exec and str are trusted",
 ]
 BOUNDS = {
-    "quick": {"text_sections": "<%text> bodies: every sequence of <=3 of 16 pieces that are directives / escapes / tag fragments outside the section, with and without surrounding text", "bytes": "documents given as bytes (BOM+bytes, bytes, BOM+file): all sequences of <=2 (3 with special first two) over 14 pieces incl. U+FEFF U+FEFB U+FFFB U+FFFF U+F000 U+EFFF", "k_full": 3, "k_core": 4, "units": "<=2 all junctions, 3 with junctions {'',LF}; each also through render() under a rotating output_encoding (utf-8, utf-16, utf-8-sig, utf-32, utf-16-le, utf-7) and decoded", "rep_max": 256, "time_limit": 4},
+    "quick": {"text_sections": "<%text> bodies: every sequence of <=3 of 16 pieces that are directives / escapes / tag fragments outside the section, with and without surrounding text", "cmd": "mako-render given a template file (plain and with a byte-order mark): all sequences of <=3 of 10 pieces with CR, CR LF, escapes ending in CR LF, a <%text> body with CR; output equals the library's render", "bytes": "documents given as bytes (BOM+bytes, bytes, BOM+file): all sequences of <=2 (3 with special first two) over 14 pieces incl. U+FEFF U+FEFB U+FFFB U+FFFF U+F000 U+EFFF", "k_full": 3, "k_core": 4, "units": "<=2 all junctions, 3 with junctions {'',LF}; each also through render() under a rotating output_encoding (utf-8, utf-16, utf-8-sig, utf-32, utf-16-le, utf-7) and decoded", "rep_max": 256, "time_limit": 4},
     "thorough": {"bytes": "as quick", "k_full": 4, "k_core": 5, "units": "<=2 all junctions, 3 with junctions {'',LF,CRLF}, 4 without junctions", "rep_max": 4096, "time_limit": 20},
 }
 
@@ -637,6 +638,61 @@ def check_bytes_doc(s, st, scratch):
             break
 
 
+CMD_PIECES = ["a", "\r\n", "\r", "\n", "${'x'}", "## c\r\n", "<%text>\r\n\r</%text>", "%% p\r\n", "\\\r\n", "\u00e9"]
+
+
+def cmd_docs():
+    for n in (1, 2, 3):
+        for w in itertools.product(CMD_PIECES, repeat=n):
+            yield "".join(w)
+
+
+def check_cmd_doc(s, st, scratch):
+    """the mako-render command line given a template FILE (with and without a UTF-8 byte-order mark): what it writes is
+    what the library renders for the same characters (CR, CR LF and the mark are where a text-mode read would differ)"""
+    import codecs
+
+    from mako import cmd as mcmd
+    from mako.template import Template
+
+    try:
+        want = ("ok", Template(s).render_unicode())
+    except BaseException as e:  # noqa
+        want = ("exc", type(e).__name__)
+    st.states += 1
+    st.traces += 1
+    if "\r" in s:
+        st.nontrivial += 1
+    for name, data in (("file", s.encode("utf-8")), ("bom+file", codecs.BOM_UTF8 + s.encode("utf-8"))):
+        fn = os.path.join(scratch, "c.html")
+        out = os.path.join(scratch, "c.out")
+        with open(fn, "wb") as f:
+            f.write(data)
+        if os.path.exists(out):
+            os.unlink(out)
+        st.evaluations += 1
+        st.transitions += 1
+        st.oracles["cmd-file"] += 1
+        err = sys.stderr
+        try:
+            sys.stderr = io.StringIO()
+            try:
+                mcmd.cmdline(["--output-encoding", "utf-8", "--output-file", out, fn])
+                got = ("ok", open(out, "rb").read().decode("utf-8"))
+            except SystemExit:
+                got = ("exc", "exit")
+            except BaseException as e:  # noqa
+                got = ("exc", type(e).__name__)
+        finally:
+            sys.stderr = err
+        same = got == want or (got[0] == "exc" and want[0] == "exc")
+        st.outcomes[("cmd", name, got[0], "same" if same else "differs")] += 1
+        if not same:
+            st.violation("cmd:%s:mako-render writes other text than the library renders" % name, {"kind": "cmd", "text": s, "route": name},
+                         "the command line given a template file renders the document its characters give as str", expected=list(want), observed=list(got))
+            break
+
+
 def plan(tier, seed):
     n = core.NPROC
     jobs = [{"kind": "words", "tier": tier, "seed": seed, "shard": i, "nshards": n} for i in range(n)]
@@ -645,6 +701,7 @@ def plan(tier, seed):
     for i in range(n):
         jobs.append({"kind": "time", "tier": tier, "seed": seed, "fams": fams[i::n]})
     jobs.append({"kind": "bytes", "tier": tier, "seed": seed})
+    jobs.append({"kind": "cmd", "tier": tier, "seed": seed})
     jobs += [{"kind": "textsec", "tier": tier, "seed": seed, "shard": i, "nshards": 4} for i in range(4)]
     return jobs
 
@@ -721,6 +778,13 @@ def _run_job(job, st):
             check_bytes_doc(src, st, scratch)
             n += 1
         st.extra["bytes_docs"] = n
+    elif job["kind"] == "cmd":
+        scratch = core.scratch_dir("c01c")
+        n = 0
+        for src in cmd_docs():
+            check_cmd_doc(src, st, scratch)
+            n += 1
+        st.extra["cmd_docs"] = n
     return st
 
 
@@ -920,6 +984,8 @@ def replay(case):
         check_text_doc(case["text"], st)
     elif case["kind"] == "bytes":
         check_bytes_doc(case["text"], st, core.scratch_dir("c01b"))
+    elif case["kind"] == "cmd":
+        check_cmd_doc(case["text"], st, core.scratch_dir("c01c"))
     elif case["kind"] == "units":
         s = case["text"]
         check_unit_doc(s, st)
